@@ -50,12 +50,16 @@ class Ctx(object):
         self.evals = 0          # bounded units: evaluations
         self.distinct = set()
 
+    def explore(self, path, **kw):
+        """paths of path(st), counted"""
+        for st, out in ip.explore(path, **kw):
+            self.paths += 1
+            yield st, out
+
     # ---- deductive obligations
     def prove(self, st, name, goal, info=None, replay=None):
         """obligation  pc(st) /\\ side(st) ==> goal"""
-        side = getattr(st, 'side', None)
-        if side is None:
-            side = core.side_conditions()
+        side = core.side_conditions()      # live: belongs to the path being processed (see interp.explore)
         try:
             v = vc.prove(st.pc, side, goal)
         except z3.Z3Exception as e:
@@ -76,7 +80,7 @@ class Ctx(object):
 
     def fail(self, st, name, why, info=None, model=None, replay=None):
         """an obligation that is violated on a feasible path (e.g. exception where none is allowed)"""
-        side = getattr(st, 'side', None) or core.side_conditions()
+        side = core.side_conditions()
         s = core.mk_solver(8000)
         s.add(*st.pc)
         s.add(*side)
